@@ -178,6 +178,18 @@ func (e *Engine) VerifyFunc(key string, opts VerifyOpts) error {
 		}
 		st.named[g.Name] = Val{e.Decls.Const("ghost0!"+smt.Ident(key)+"!"+g.Name, SortOf(t)), t}
 	}
+	// "local-ghost: name": a boolean history variable of this function alone, false at entry
+	e.localGhost = map[string]bool{}
+	if con != nil {
+		for _, a := range con.Attrs["local-ghost"] {
+			name := strings.TrimSpace(a)
+			if _, dup := st.named[name]; dup || name == "" {
+				return fmt.Errorf("%s: local-ghost %q of %s: empty or already a ghost state variable", con.File, name, key)
+			}
+			st.named[name] = Val{smt.False, types.Typ[types.Bool]}
+			e.localGhost[name] = true
+		}
+	}
 	if e.TraceOn {
 		st.named["$trace"] = Val{e.Decls.Const("trace0!"+smt.Ident(key), smt.V), nil}
 		st.Assume(smt.Eq(smt.App(smt.Int, "s_len", st.named["$trace"].T), smt.IntLit(0)))
@@ -323,6 +335,24 @@ func (e *Engine) VerifyFunc(key string, opts VerifyOpts) error {
 
 // checkFrame: everything outside the assigns clause is unchanged.
 func (e *Engine) checkFrame(st *State, con *contract.Func, env *SpecEnv, retName string) error {
+	// ghost state outside the assigns clause is unchanged (a callee's frame may not be wider than its caller's)
+	for _, name := range smt.SortedKeys(e.entry.named) {
+		if strings.HasPrefix(name, "$") || e.localGhost[name] {
+			continue
+		}
+		listed := false
+		for _, a := range con.Assigns {
+			if a == name {
+				listed = true
+			}
+		}
+		now, ok := st.named[name]
+		was := e.entry.named[name]
+		if listed || !ok || now.T.S == was.T.S || now.T.Sort != was.T.Sort {
+			continue
+		}
+		e.oblige(st, "frame", "ghost("+name+")@"+retName, e.cur.Decl.Body.Rbrace, smt.Eq(now.T, was.T))
+	}
 	if st.heap.S == e.entry.heap.S {
 		return nil
 	}
